@@ -1036,18 +1036,35 @@ class Explorer:
         term = z3.simplify(term)
         if z3.is_int_value(term):
             return term.as_long()
+        start = None
         if self.pos < len(self.decisions):
             d = self.decisions[self.pos]
             if d[0] == 'v':
                 self.pos += 1
                 self.solver.add(term == d[1])
                 return d[1]
-            assert d[0] == 'nv', f'decision mismatch: {d}'
-            excluded = list(d[1])
+            if d[0] == 'ge':
+                start = d[1]
+                excluded = []
+            else:
+                assert d[0] == 'nv', f'decision mismatch: {d}'
+                excluded = list(d[1])
             # the entry is replaced by the value chosen now
             self.decisions = self.decisions[:self.pos]
         else:
             excluded = []
+        if dom is not None and dom[0] is not None and dom[1] is not None and not excluded:
+            # finite range: walk it in increasing order (two cheap queries per value)
+            lo = dom[0] if start is None else start
+            for v in range(lo, dom[1] + 1):
+                if self._check(term == v) == z3.sat:
+                    if v < dom[1] and self._check(term > v, term <= dom[1]) != z3.unsat:
+                        self.worklist.append(self.decisions[:self.pos] + [('ge', v + 1)])
+                    self.decisions.append(('v', v))
+                    self.pos += 1
+                    self.solver.add(term == v)
+                    return v
+            raise PathAbort()
         for v in excluded:
             self.solver.add(term != v)
         if dom is not None:
